@@ -783,7 +783,7 @@ def EmitOK (doC : Bool) (it : Item) : Prop := it.emit = (doC || it.typ != "COMME
 theorem loop_lexemes2 (doC : Bool) : ∀ (ts : List Lex2), (∀ t ∈ ts, t.WF) → ∀ (fuel line col : Nat),
     (render2 ts).length < fuel →
       (loop false doC fuel (render2 ts) line col).items.map proj = expectedAll ts ∧
-      ∀ it ∈ (loop false doC fuel (render2 ts) line col).items, EmitOK doC it := by
+      ∀ it ∈ (loop false doC fuel (render2 ts) line col).items, EmitOK doC it ∧ it.found = it.value := by
   intro ts
   induction ts with
   | nil =>
@@ -815,8 +815,8 @@ theorem loop_lexemes2 (doC : Bool) : ∀ (ts : List Lex2), (∀ t ∈ ts, t.WF) 
       refine ⟨by simp [proj, this.1], ?_⟩
       intro it hit
       rcases hit with rfl | rfl | hit
-      · rfl
-      · simp [EmitOK]
+      · exact ⟨rfl, rfl⟩
+      · exact ⟨by simp [EmitOK], rfl⟩
       · exact this.2 it hit
 
 theorem filter_emit_proj (doC : Bool) : ∀ (items : List Item), (∀ it ∈ items, EmitOK doC it) →
@@ -851,7 +851,7 @@ theorem tokenize_lexemes2 (doC : Bool) (ts : List Lex2) (h : ∀ t ∈ ts, t.WF)
     exact ms_nil_of_headIn (cs := lexHeads) (by decide) (by decide) hstart
   obtain ⟨hmap, hemit⟩ := loop_lexemes2 doC ts h ((render2 ts).length + 1) 1 1 (Nat.lt_succ_self _)
   simp only [Res.tokens, tokenize_plain doC _ hbom hcs, tokensAt]
-  rw [filter_emit_proj doC _ hemit, hmap]
+  rw [filter_emit_proj doC _ (fun it h => (hemit it h).1), hmap]
 
 /-! ## the well-formedness predicates are decidable (the driver evaluates them on generated lexeme lists) -/
 
